@@ -167,6 +167,11 @@ def invalid_cases():
         out.append(("ics", "ct[%s]begin-without-end" % sp, b"BEGIN:VCALENDAR\r\nVERSION:2.0\r\nBEGIN:VEVENT\r\nUID:x\r\nSUMMARY:x\r\n"))
     for sp in ("TEXT/VCARD", "Text/vCard; charset=utf-8", "text/vcard ; charset=utf-8"):
         out.append(("vcf", "ct[%s]card-without-begin-end" % sp, b"VERSION:3.0\r\nFN:Jo\r\nN:Doe;Jo;;;\r\n"))
+    # the media type of the other kind of collection: a broken card sent to a calendar, a broken calendar sent to an address book
+    out.append(("vcf", "other-collection:card-without-begin-end", b"VERSION:3.0\r\nFN:Jo\r\nN:Doe;Jo;;;\r\n"))
+    out.append(("vcf", "other-collection:arbitrary-text", b"hello world\r\n"))
+    out.append(("ics", "other-collection:begin-without-end", b"BEGIN:VCALENDAR\r\nVERSION:2.0\r\nBEGIN:VEVENT\r\nUID:x\r\nSUMMARY:x\r\n"))
+    out.append(("ics", "other-collection:arbitrary-text", b"hello world\r\n"))
     return out
 
 
@@ -273,6 +278,8 @@ def _group(args):
                 name = "inv.%s" % typ
                 ct = B.CT_ICS if typ == "ics" else B.CT_VCF
                 spelled = None
+                if label.startswith("other-collection:"):
+                    coll = "ab" if typ == "ics" else "cal"
                 if label.startswith("ct["):
                     spelled = ct = label[3:label.index("]")]
                 before = (s.listing(coll), dir_listing(s.root, coll) if tree else None, s.audit_tag(coll))
@@ -295,6 +302,8 @@ def _group(args):
                     cls = cls.split("-char")[0] + "-char"
                 if spelled:
                     cls = "media-type-spelled-differently"
+                if label.startswith("other-collection:"):
+                    cls = "sent-to-the-other-kind-of-collection"
                 if retry:
                     cls += ":accepted-when-retried"
                 stats["outcomes"].add(("invalid", typ, cls, st1))
